@@ -1305,6 +1305,13 @@ func (c10) Run(t *tape.Tape, cfg sim.Config) (res sim.Result) {
 	}
 	for i := range hist {
 		if hist[i].out.MayFailKnown && rtCloseCall >= 0 && rtCloseCall < hist[i].ret {
+			// ... unless a handle of that binary was closed before the operation returned as well: then the
+			// failure has two explanations (the recorded finding, or the runtime being closed) and either is
+			// accepted; demanding the runtime-close one made the later operations of such histories
+			// unexplainable (thorough seed 83 run 20008)
+			if first, ok := closedCompiledBins[hist[i].in.Bin]; ok && first <= hist[i].ret {
+				continue
+			}
 			hist[i].out.MayFailKnown = false
 		}
 	}
